@@ -7,9 +7,14 @@ discovery_shape()  : text tie.  agent/discovery.c, agent/conncheck.c, agent/agen
 discovery_tie(chk) : differential tie.  harness/disc_h.c runs the real tick / schedule / answer path on a real agent with fabricated
                      discovery items, a scripted socket and an interposed clock; the same scripts are run through the model INSIDE Coq
                      (vm_compute) and every per-step snapshot (pending, done, request buffer, retransmission count, auth_retries,
-                     next_tick, server of every item; unscheduled counter; timer source; stream->gathering; transmissions; candidates;
-                     gathering-done signals) is compared there.  Also runs, on the real code, the endless-redirect witness of
-                     C20_terminates_refuted_by_endless_redirect and reports it as a violation unless it is a recorded finding.
+                     next_tick, server, redirects of every item; unscheduled counter; timer source; stream->gathering; transmissions;
+                     candidates; gathering-done signals) is compared there.  Scripts: random mixes plus directed storms (401/438 and
+                     alternate-server answers around NICE_DISCOVERY_MAX_AUTH_RETRIES / NICE_DISCOVERY_MAX_REDIRECTS on STUN and TURN
+                     items with and without siblings, timer firings around every deadline).
+                     REGRESSION, every tier, implementation only (runs even when the text tie is broken): the endless-redirect server
+                     (defect fixed by /repo 1878027) against STUN / TURN / TURN + sibling / STUN + TURN for longer than the proved bound
+                     T(n) of C20_gathering_terminates: gathering must have completed, once; otherwise violation kind
+                     `discovery-endless-redirect` with the script as replay.
 """
 import os, re
 import vlib
@@ -57,7 +62,7 @@ SCHEDULE = ["if (agent->discovery_unsched_items > 0) { if (agent->discovery_time
 FREE = ["agent->discovery_list = NULL; agent->discovery_unsched_items = 0; if (agent->discovery_timer_source != NULL) { g_source_destroy (agent->discovery_timer_source); g_source_unref (agent->discovery_timer_source); agent->discovery_timer_source = NULL; } }"]
 SRFLX = [
     "for (i = agent->discovery_list; i && trans_found != TRUE; i = i->next) { CandidateDiscovery *d = i->data; if (d->type == NICE_CANDIDATE_TYPE_SERVER_REFLEXIVE && d->stun_message.buffer) { stun_message_id (&d->stun_message, discovery_id); if (memcmp (discovery_id, response_id, sizeof(StunTransactionId)) == 0) { res = stun_usage_bind_process (resp, &sockaddr.addr, &socklen, &alternate.addr, &alternatelen);",
-    "if (res == STUN_USAGE_BIND_RETURN_ALTERNATE_SERVER) { NiceAddress niceaddr; nice_address_set_from_sockaddr (&niceaddr, &alternate.addr); d->server = niceaddr; d->pending = FALSE; agent->discovery_unsched_items++; } else if (res == STUN_USAGE_BIND_RETURN_SUCCESS) {",
+    "if (res == STUN_USAGE_BIND_RETURN_ALTERNATE_SERVER && d->redirects < NICE_DISCOVERY_MAX_REDIRECTS) { NiceAddress niceaddr; nice_address_set_from_sockaddr (&niceaddr, &alternate.addr); d->server = niceaddr; d->redirects++; d->pending = FALSE; agent->discovery_unsched_items++; } else if (res == STUN_USAGE_BIND_RETURN_ALTERNATE_SERVER) { d->stun_message.buffer = NULL; d->stun_message.buffer_len = 0; d->done = TRUE; trans_found = TRUE; } else if (res == STUN_USAGE_BIND_RETURN_SUCCESS) {",
     "discovery_add_server_reflexive_candidate (",
     "d->stun_message.buffer = NULL; d->stun_message.buffer_len = 0; d->done = TRUE; trans_found = TRUE; } else if (res == STUN_USAGE_BIND_RETURN_ERROR) { d->stun_message.buffer = NULL; d->stun_message.buffer_len = 0; d->done = TRUE; trans_found = TRUE; } } } } return trans_found; }",
 ]
@@ -71,7 +76,7 @@ RELAY = [
     "d->pending = FALSE; agent->discovery_unsched_items++; } else { d->stun_message.buffer = NULL; d->stun_message.buffer_len = 0; d->done = TRUE; } } else if (d->pending) { d->stun_message.buffer = NULL; d->stun_message.buffer_len = 0; d->done = TRUE; } trans_found = TRUE; } } } } return trans_found; }",
 ]
 ALT = [
-    "for (i = agent->discovery_list; i; i = i->next) { CandidateDiscovery *d = i->data; if (!d->done && d->type == disco->type && d->stream_id == disco->stream_id && d->turn->type == disco->turn->type && nice_address_equal (&d->server, &server)) {",
+    "GSList *i; if (disco->redirects >= NICE_DISCOVERY_MAX_REDIRECTS) { disco->stun_message.buffer = NULL; disco->stun_message.buffer_len = 0; disco->done = TRUE; return; } disco->redirects++; for (i = agent->discovery_list; i; i = i->next) { CandidateDiscovery *d = i->data; if (!d->done && d->type == disco->type && d->stream_id == disco->stream_id && d->turn->type == disco->turn->type && nice_address_equal (&d->server, &server)) {",
     "d->stun_message.buffer = NULL; d->stun_message.buffer_len = 0;",
     "d->server = alternate; d->turn->server = alternate; d->pending = FALSE; agent->discovery_unsched_items++;",
 ]
@@ -140,14 +145,14 @@ def discovery_shape():
         return None, "agent/discovery.c: ->pending is assigned somewhere else than the modelled `cand->pending = TRUE;`"
     # every assignment of ->done / ->pending of a CandidateDiscovery in conncheck.c is inside a modelled function
     owned = "".join(_func(cc, p[2]) for p in plan if p[1] == "agent/conncheck.c")
-    for pat, cnt in (("d->done = TRUE;", 5), ("d->pending = FALSE;", 3), ("d->auth_retries++;", 1)):
+    for pat, cnt in (("d->done = TRUE;", 6), ("disco->done = TRUE;", 1), ("d->pending = FALSE;", 3), ("d->auth_retries++;", 1), ("d->redirects++;", 1), ("disco->redirects++;", 1), ("->redirects", 4)):
         if cc.count(pat) != owned.count(pat) or cc.count(pat) != cnt:
             return None, "agent/conncheck.c: `%s` occurs %d times (%d inside the modelled functions), the model transcribes %d" % (pat, cc.count(pat), owned.count(pat), cnt)
     for f in ("agent/agent.c",):
         if ac.count("if (agent->discovery_unsched_items) discovery_schedule (agent); else agent_gathering_done (agent);") < 2:
             return None, "agent/agent.c no longer contains the modelled statement `if (agent->discovery_unsched_items) discovery_schedule (agent); else agent_gathering_done (agent);` at the end of both gathering entry points"
     consts = {}
-    for name, txt, pat in (("MAX_AUTH_RETRIES", dh, r"#define\s+NICE_DISCOVERY_MAX_AUTH_RETRIES\s+(\d+)"), ("TA_DEFAULT", ah, r"#define\s+NICE_AGENT_TIMER_TA_DEFAULT\s+(\d+)"),
+    for name, txt, pat in (("MAX_AUTH_RETRIES", dh, r"#define\s+NICE_DISCOVERY_MAX_AUTH_RETRIES\s+(\d+)"), ("MAX_REDIRECTS", dh, r"#define\s+NICE_DISCOVERY_MAX_REDIRECTS\s+(\d+)"), ("TA_DEFAULT", ah, r"#define\s+NICE_AGENT_TIMER_TA_DEFAULT\s+(\d+)"),
                            ("TIMER_DEFAULT_TIMEOUT", th, r"#define\s+STUN_TIMER_DEFAULT_TIMEOUT\s+(\d+)"), ("TIMER_DEFAULT_MAX_RETRANSMISSIONS", th, r"#define\s+STUN_TIMER_DEFAULT_MAX_RETRANSMISSIONS\s+(\d+)"),
                            ("ERR_TRY_ALTERNATE", mh, r"STUN_ERROR_TRY_ALTERNATE\s*=\s*(\d+)"), ("ERR_UNAUTHORIZED", mh, r"STUN_ERROR_UNAUTHORIZED\s*=\s*(\d+)"), ("ERR_STALE_NONCE", mh, r"STUN_ERROR_STALE_NONCE\s*=\s*(\d+)")):
         m = re.search(pat, txt)
@@ -156,8 +161,8 @@ def discovery_shape():
         consts[name] = int(m.group(1))
     if (consts["ERR_UNAUTHORIZED"], consts["ERR_STALE_NONCE"]) != (401, 438):
         return None, "STUN_ERROR_UNAUTHORIZED / STUN_ERROR_STALE_NONCE are no longer 401 / 438 (DiscoveryModel.auth_retry spells the numbers)"
-    if "guint auth_retries;" not in re.sub(r"\s+", " ", dh) or "gboolean pending;" not in re.sub(r"\s+", " ", dh) or "gboolean done;" not in re.sub(r"\s+", " ", dh) or "gint64 next_tick;" not in re.sub(r"\s+", " ", dh):
-        return None, "agent/discovery.h: CandidateDiscovery no longer has the modelled fields (next_tick, pending, done, auth_retries)"
+    if "guint auth_retries;" not in re.sub(r"\s+", " ", dh) or "gboolean pending;" not in re.sub(r"\s+", " ", dh) or "gboolean done;" not in re.sub(r"\s+", " ", dh) or "gint64 next_tick;" not in re.sub(r"\s+", " ", dh) or "guint redirects;" not in re.sub(r"\s+", " ", dh):
+        return None, "agent/discovery.h: CandidateDiscovery no longer has the modelled fields (next_tick, pending, done, auth_retries, redirects)"
     text = "(* GENERATED from agent/discovery.h, agent/agent-priv.h, stun/usages/timer.h, stun/stunmessage.h (shape of agent/discovery.c, agent/conncheck.c, agent/agent.c, stun/stunagent.c checked) by props/c20_discovery.py - do not edit *)\nFrom Coq Require Import ZArith.\nLocal Open Scope Z_scope.\n"
     for k, v in consts.items():
         text += "Definition D_%s : Z := %d.\n" % (k, v)
@@ -193,7 +198,7 @@ Definition to_event (s : dstate) (o : op) : event :=
     end
   end.
 Definition b2z (b : bool) : Z := if b then 1 else 0.
-Definition snap_item (it : item) := [b2z (d_pending it); b2z (d_done it); b2z (d_buf it); retrans (d_timer it); d_auth it; d_next it; d_srv it].
+Definition snap_item (it : item) := [b2z (d_pending it); b2z (d_done it); b2z (d_buf it); retrans (d_timer it); d_auth it; d_next it; d_srv it; d_redir it].
 Definition cnt (f : out -> bool) (l : list out) : Z := Z.of_nat (length (filter f l)).
 Definition snap (s : dstate) (o : list out) :=
   (map snap_item (ds_items s), [ds_unsched s; b2z (ds_timer s); b2z (ds_gathering s);
@@ -214,9 +219,9 @@ Fixpoint first_diff {A} (f : A -> A -> bool) (n : nat) (a b : list A) : option (
   | x :: _, [] => Some (n, Some x, None)
   | [], y :: _ => Some (n, None, Some y)
   end.
-Definition check (case : Z * (Z * Z * Z) * list item * list op * list (list (list Z) * list Z)) :=
-  let '(id, (T, N, A), its, ops, exp) := case in
-  match first_diff snap_eqb 0 (trace {| c_T := T; c_N := N; c_maxauth := A |} (init its) [] ops) exp with
+Definition check (case : Z * (Z * Z * Z * Z) * list item * list op * list (list (list Z) * list Z)) :=
+  let '(id, (T, N, A, R), its, ops, exp) := case in
+  match first_diff snap_eqb 0 (trace {| c_T := T; c_N := N; c_maxauth := A; c_maxredir := R |} (init its) [] ops) exp with
   | None => None
   | Some d => Some (id, d)
   end.
@@ -232,7 +237,29 @@ def _gen_case(rng, maxauth):
     T = rng.choice([500, 500, 200, 50, 7, 1]); N = rng.choice([3, 3, 1, 2, 4, 0])
     t = 100 * 1000000 + rng.choice([0, 999999, 123456, 500000])
     ops = ["S:%d:%d:%d" % (t // 1000000, t % 1000000, rng.choice([0, 0, 0, 1, 2, 5]))]
-    style = rng.choice(["mixed", "silent", "auth", "redirect", "mixed", "authstorm", "authstorm", "redirstorm", "deadline"])
+    style = rng.choice(["mixed", "silent", "auth", "redirect", "mixed", "authstorm", "authstorm", "redirstorm", "deadline", "redirbound", "redirbound"])
+    if style == "redirbound":
+        # directed: a redirect storm around NICE_DISCOVERY_MAX_REDIRECTS on a STUN or a TURN item, alone or with sibling items (same or
+        # other group / server / kind), the timer firing between the answers; then time for everything else to time out
+        items = rng.choice([["s1.1"], ["r1.2"], ["r1.2", "r1.2"], ["s1.1", "r1.2"], ["r1.2", "s1.1"], ["r1.2", "r1.2", "s1.1"], ["r1.2", "r2.2", "r1.3", "r1.2"], ["s1.1", "s1.1"]])
+        n = len(items); T = rng.choice([500, 500, 200, 50]); N = rng.choice([3, 3, 2, 1])
+        ops = ["S:%d:%d:0" % (t // 1000000, t % 1000000)]
+        def tk(dt):
+            nonlocal t
+            t += dt; ops.append("T:%d:%d:0" % (t // 1000000, t % 1000000))
+        for _ in range(rng.choice([0, n, n])):
+            tk(20000)
+        i = rng.choice([0, 0, n - 1])
+        for k in range(rng.choice([4, 5, 6, 7, 50])):
+            ops.append("A:%d:c:alt%d" % (i, 1 + (k + rng.randrange(2)) % 5))
+            if rng.random() < 0.15:
+                ops.append(ops[-1])
+            if n > 1 and rng.random() < 0.25:
+                ops.append("A:%d:c:%s" % (rng.randrange(n), rng.choice(["alt%d" % rng.randrange(1, 6), "e438.1", "ok", "e500.0"])))
+            tk(rng.choice([20000, 20000, 20000, 40000]))
+        for _ in range(rng.choice([0, 10, 140])):
+            tk(rng.choice([20000, 20000, T * 1000]))
+        return T, N, items, ops
     def tick(dt, fm=0):
         nonlocal t
         t += dt; ops.append("T:%d:%d:%d" % (t // 1000000, t % 1000000, fm))
@@ -319,7 +346,7 @@ def build_harness():
     return vlib.link("disc_h", ["disc_h.c"], objs)
 
 
-def run_cases(impl, cases, maxauth):
+def run_cases(impl, cases, consts):
     """cases: list of (T, N, items, ops).  Returns (None, text) when the harness failed, else (n_disagreements_info, coq_output)"""
     txt = "".join("d%d %d %d %s %s\n" % (i, c[0], c[1], ",".join(c[2]), " ".join(c[3])) for i, c in enumerate(cases))
     rc, so, se = vlib.run_lines(impl, txt)
@@ -329,7 +356,7 @@ def run_cases(impl, cases, maxauth):
     items = []
     for i, (c, o_) in enumerate(zip(cases, outs)):
         snaps = o_[1].strip().split(";")
-        items.append("(%d, (%d, %d, %d), [%s], [%s], [%s])" % (i, c[0], c[1], maxauth, "; ".join(_coq_item(x) for x in c[2]), "; ".join(_coq_op(x) for x in c[3]),
+        items.append("(%d, (%d, %d, %d, %d), [%s], [%s], [%s])" % (i, c[0], c[1], consts["MAX_AUTH_RETRIES"], consts["MAX_REDIRECTS"], "; ".join(_coq_item(x) for x in c[2]), "; ".join(_coq_op(x) for x in c[3]),
                                                               "; ".join(_coq_snap(s) for s in snaps)))
     body = DRIVER + "Definition cases := [\n%s].\nDefinition bad := filter (fun r => match r with Some _ => true | None => false end) (map check cases).\n" % ";\n".join(items)
     body += "Eval vm_compute in (length bad, hd None bad).\n"
@@ -337,29 +364,65 @@ def run_cases(impl, cases, maxauth):
     return rcq, out, outs
 
 
-# the endless-redirect witness (coq: C20_terminates_refuted_by_endless_redirect): one server-reflexive discovery whose server (and every
-# server it names) answers each request with 300 + ALTERNATE-SERVER
-def redirect_witness(rounds):
+# the endless-redirect regression (defect fixed by /repo 1878027; coq: C20_gathering_terminates, C20_gathering_time_grows_with_redirect_limit): a server
+# (and every server it names) answers each request of item 0 at once with 300 + ALTERNATE-SERVER, the timer fires every Ta; the script lasts
+# longer than the proved bound T(n) for the default timer, so gathering MUST have completed (once) at its end
+WITNESS_ITEMS = [["s1.1"], ["r1.2"], ["r1.2", "r1.2"], ["s1.1", "r1.2"]]
+
+
+def bound_us(consts, n, G):
+    """T(n) of C20_gathering_terminates for the default timer (N = 3), microseconds"""
+    tx = 4000 * consts["TIMER_DEFAULT_TIMEOUT"] + 3 * (1000 + G)
+    return n * ((consts["MAX_AUTH_RETRIES"] + 1) * (G + tx) + consts["MAX_REDIRECTS"] * n * tx)
+
+
+def redirect_witness(consts, items):
+    G = consts["TA_DEFAULT"] * 1000
+    rounds = bound_us(consts, len(items), G) // G + 2
     ops = ["S:100:0:0"]; t = 100 * 1000000
     for k in range(rounds):
-        ops.append("A:0:c:alt%d" % (1 + k % 5)); t += 20000; ops.append("T:%d:%d:0" % (t // 1000000, t % 1000000))
-    return (500, 3, ["s1.1"], ops)
+        ops.append("A:0:c:alt%d" % (1 + k % 5)); t += G; ops.append("T:%d:%d:0" % (t // 1000000, t % 1000000))
+    return (consts["TIMER_DEFAULT_TIMEOUT"], consts["TIMER_DEFAULT_MAX_RETRANSMISSIONS"], items, ops)
+
+
+FALLBACK = {"MAX_AUTH_RETRIES": 5, "MAX_REDIRECTS": 5, "TA_DEFAULT": 20, "TIMER_DEFAULT_TIMEOUT": 500, "TIMER_DEFAULT_MAX_RETRANSMISSIONS": 3}
 
 
 def discovery_tie(chk):
     info, err = discovery_shape()
     if info is None:
-        chk.broken_obligation("translator/table-extractor", err); return
+        # the text tie is broken; the regression below needs no model and still says whether the defect is back
+        chk.broken_obligation("translator/table-extractor", err)
     impl, o = build_harness()
     if not impl:
         chk.broken_obligation("impl-build-disc", o[-2000:]); return
-    maxauth = info["MAX_AUTH_RETRIES"]
+    shape_ok = info is not None
+    info = info or FALLBACK
+    # regression first (every tier), on the implementation alone: the oracle is the property itself
+    wit = [redirect_witness(info, its) for its in WITNESS_ITEMS]
+    txt = "".join("w%d %d %d %s %s\n" % (i, c[0], c[1], ",".join(c[2]), " ".join(c[3])) for i, c in enumerate(wit))
+    rc, so, se = vlib.run_lines(impl, txt)
+    wouts = [l.split(" ", 1) for l in so.strip().split("\n")] if so.strip() else []
+    if rc != 0 or len(wouts) != len(wit):
+        chk.broken_obligation("disc-harness", (se or so)[-2500:]); return
+    for c, o_ in zip(wit, wouts):
+        snaps = o_[1].strip().split(";"); last = snaps[-1].split("|")
+        chk.count_case("redirect-regression %s" % ",".join(c[2]), True, "discovery-redirect-regression")
+        if not (last[0] == "-" and last[3] == "0" and last[6] == "1"):
+            chk.violation({"kind": "discovery-endless-redirect", "items": c[2], "server": "300+ALTERNATE-SERVER to every request of item 0", "rounds": len(c[3]) // 2,
+                           "script": " ".join(c[3][:40]) + " ... (answer, tick every %d ms)" % info["TA_DEFAULT"]},
+                          "a server (and the servers it names) answering every request of a discovery with 300 + ALTERNATE-SERVER keeps candidate gathering open: %d s after the start "
+                          "(proved bound T(%d) = %.3f s) list=%s gathering=%s, %s requests sent, candidate-gathering-done emitted %s times (items %s)"
+                          % (len(c[3]) // 2 * info["TA_DEFAULT"] // 1000, len(c[2]), bound_us(info, len(c[2]), info["TA_DEFAULT"] * 1000) / 1e6, "freed" if last[0] == "-" else "alive", last[3], last[4], last[6], ",".join(c[2])))
+            return
+    if not shape_ok:
+        return
     n = 400 if chk.tier == "quick" else 6000
-    cases = [_gen_case(chk.rng, maxauth) for _ in range(n)]
+    cases = wit[:2] + [_gen_case(chk.rng, info) for _ in range(n)]
     total = 0
-    for lo in range(0, n, 1000):
+    for lo in range(0, len(cases), 1000):
         part = cases[lo:lo + 1000]
-        rcq, out, outs = run_cases(impl, part, maxauth)
+        rcq, out, outs = run_cases(impl, part, info)
         if rcq is None:
             chk.broken_obligation("disc-harness", out); return
         flat = out.replace("\n", " ")
@@ -372,8 +435,8 @@ def discovery_tie(chk):
             # implementation-side oracles, independent of the model: completion signalled at most once; no transmission, no candidate after completion
             for c, o_ in zip(part, outs):
                 prev = None
-                for k, s in enumerate(o_[1].strip().split(";")):
-                    f = s.split("|")
+                for k, s_ in enumerate(o_[1].strip().split(";")):
+                    f = s_.split("|")
                     if int(f[6]) > 1:
                         chk.violation({"kind": "discovery", "case": " ".join(c[3]), "items": c[2]}, "candidate-gathering-done emitted %s times in one gathering run" % f[6]); return
                     if prev and prev[0] == "-" and (f[4] != prev[4] or f[5] != prev[5]):
@@ -381,14 +444,3 @@ def discovery_tie(chk):
                     prev = f
             return
     chk.cov["traces_validated_against_impl"] += total
-    # the finding: endless alternate-server answers keep gathering open for ever (model bound for 1 item, no redirect: about 12.5 s)
-    w = redirect_witness(2000)    # 40 s of virtual time, 2000 redirects
-    rcq, out, outs = run_cases(impl, [w], maxauth)
-    if rcq is None:
-        chk.broken_obligation("disc-harness", out); return
-    last = outs[0][1].strip().split(";")[-1].split("|")
-    if last[0] != "-" and last[3] == "1" and last[6] == "0":
-        chk.violation({"kind": "discovery-endless-redirect", "server": "300+ALTERNATE-SERVER to every request", "rounds": 2000},
-                      "a STUN server (and the servers it names) answering every Binding request with 300 + ALTERNATE-SERVER keeps candidate gathering open for ever: "
-                      "after 2000 redirects / 40 s stream->gathering is still TRUE, %s requests were sent, candidate-gathering-done was never emitted "
-                      "(priv_map_reply_to_discovery_request and priv_handle_turn_alternate_server re-queue the item with no round limit)" % last[4])
